@@ -1,0 +1,345 @@
+//! Verification seams (only built with `--features verif-hooks`).
+//!
+//! Nothing in this module contains protocol logic. It provides:
+//! - [`SimCtl`]: a controller that owns the virtual clock, a lock-step gate for the daemon run
+//!   loop, an ingress queue, an egress log, a simulated interface table and a jitter script;
+//! - a thread-local clock override and a fuel counter used by component-level checks;
+//! - re-exports of the plain-data facades living next to the private items they expose
+//!   ([`wire`], [`life`], [`names`]).
+//!
+//! When no controller is installed in the current thread every seam forwards to the real thing.
+use std::cell::{Cell, RefCell};
+use std::collections::VecDeque;
+use std::net::{IpAddr, SocketAddr};
+use std::sync::{Arc, Condvar, Mutex};
+use std::time::Duration;
+
+
+/// One address of a simulated interface (same shape as one `getifaddrs` entry).
+#[derive(Clone, Debug, PartialEq, Eq)]
+pub struct SimIntf {
+    pub name: String,
+    pub index: u32,
+    pub ip: IpAddr,
+    pub prefix: u8,
+    pub up: bool,
+    pub p2p: bool,
+}
+
+/// A datagram to be received by the daemon.
+#[derive(Clone, Debug)]
+pub struct InPkt {
+    pub data: Vec<u8>,
+    pub if_index: u32,
+    pub src: SocketAddr,
+}
+
+/// A datagram the daemon sent.
+#[derive(Clone, Debug)]
+pub struct OutPkt {
+    pub t: u64,
+    pub if_name: String,
+    /// `None` for unicast sends (the code does not pick an interface for them).
+    pub if_index: Option<u32>,
+    pub src_ip: Option<IpAddr>,
+    pub dst: SocketAddr,
+    pub data: Vec<u8>,
+}
+
+#[derive(Clone, Debug, PartialEq, Eq)]
+pub enum Phase {
+    Starting,
+    Running,
+    Parked,
+    Exited { panicked: bool },
+}
+
+/// What the daemon reported when it parked.
+#[derive(Clone, Debug, Default)]
+pub struct ParkInfo {
+    /// Number of times the daemon parked at the loop-top gate so far.
+    pub iteration: u64,
+    pub parked_at: u64,
+    /// The timeout the daemon is about to pass to `poll` (None = wait forever).
+    pub timeout_ms: Option<u64>,
+    /// The next interface check the run loop has planned (0 = disabled).
+    pub next_ip_check: u64,
+    /// `Some(name)` if parked at a named point on the exit path instead of the loop top.
+    pub point: Option<&'static str>,
+}
+
+struct Inner {
+    now: u64,
+    phase: Phase,
+    park: ParkInfo,
+    ingress: VecDeque<InPkt>,
+    egress: Vec<OutPkt>,
+    intfs: Vec<SimIntf>,
+    rng: VecDeque<u64>,
+    rng_default: u64,
+    rng_draws: u64,
+    exit_points: bool,
+    dump_req: bool,
+    dump: Option<String>,
+}
+
+pub struct SimCtl {
+    inner: Mutex<Inner>,
+    cv: Condvar,
+}
+
+thread_local! {
+    static CTL: RefCell<Option<Arc<SimCtl>>> = const { RefCell::new(None) };
+    static CLOCK: Cell<Option<u64>> = const { Cell::new(None) };
+    static FUEL: Cell<Option<u64>> = const { Cell::new(None) };
+}
+
+/// Installs (or removes) the controller of the current thread.
+pub fn install(ctl: Option<Arc<SimCtl>>) {
+    CTL.with(|c| *c.borrow_mut() = ctl);
+}
+
+pub(crate) fn current() -> Option<Arc<SimCtl>> {
+    CTL.with(|c| c.borrow().clone())
+}
+
+/// Overrides the clock of the current thread (component-level checks, no daemon involved).
+pub fn set_thread_clock(t: Option<u64>) {
+    CLOCK.with(|c| c.set(t));
+}
+
+pub(crate) fn virtual_now() -> Option<u64> {
+    if let Some(t) = CLOCK.with(|c| c.get()) {
+        return Some(t);
+    }
+    current().map(|c| c.now())
+}
+
+/// Marker payload of the panic raised when the decoder fuel runs out.
+#[derive(Debug)]
+pub struct FuelExhausted;
+
+/// Arms (Some) or disarms (None) the per-thread decoder fuel.
+pub fn set_fuel(f: Option<u64>) {
+    FUEL.with(|c| c.set(f));
+}
+
+/// Remaining fuel, if armed.
+pub fn fuel_left() -> Option<u64> {
+    FUEL.with(|c| c.get())
+}
+
+/// Called at decoder loop heads. No-op unless fuel is armed in this thread.
+#[inline]
+pub(crate) fn tick() {
+    FUEL.with(|c| {
+        if let Some(f) = c.get() {
+            if f == 0 {
+                c.set(None);
+                std::panic::panic_any(FuelExhausted);
+            }
+            c.set(Some(f - 1));
+        }
+    });
+}
+
+/// A named park point on the daemon's exit path. No-op unless the controller enabled them.
+pub(crate) fn point(name: &'static str) {
+    if let Some(ctl) = current() {
+        ctl.park_at_point(name);
+    }
+}
+
+impl SimCtl {
+    pub fn new(start_ms: u64, intfs: Vec<SimIntf>) -> Arc<Self> {
+        Arc::new(Self {
+            inner: Mutex::new(Inner {
+                now: start_ms,
+                phase: Phase::Starting,
+                park: ParkInfo::default(),
+                ingress: VecDeque::new(),
+                egress: Vec::new(),
+                intfs,
+                rng: VecDeque::new(),
+                rng_default: 0,
+                rng_draws: 0,
+                exit_points: false,
+                dump_req: false,
+                dump: None,
+            }),
+            cv: Condvar::new(),
+        })
+    }
+    pub fn now(&self) -> u64 {
+        self.inner.lock().unwrap().now
+    }
+    pub fn set_now(&self, t: u64) {
+        self.inner.lock().unwrap().now = t;
+    }
+    pub fn set_intfs(&self, v: Vec<SimIntf>) {
+        self.inner.lock().unwrap().intfs = v;
+    }
+    pub fn get_intfs(&self) -> Vec<SimIntf> {
+        self.inner.lock().unwrap().intfs.clone()
+    }
+    pub fn inject(&self, p: InPkt) {
+        self.inner.lock().unwrap().ingress.push_back(p);
+    }
+    pub fn ingress_len(&self) -> usize {
+        self.inner.lock().unwrap().ingress.len()
+    }
+    pub fn push_rng(&self, v: u64) {
+        self.inner.lock().unwrap().rng.push_back(v);
+    }
+    pub fn set_rng_default(&self, v: u64) {
+        self.inner.lock().unwrap().rng_default = v;
+    }
+    pub fn rng_draws(&self) -> u64 {
+        self.inner.lock().unwrap().rng_draws
+    }
+    pub fn enable_exit_points(&self, on: bool) {
+        self.inner.lock().unwrap().exit_points = on;
+    }
+    pub fn take_egress(&self) -> Vec<OutPkt> {
+        std::mem::take(&mut self.inner.lock().unwrap().egress)
+    }
+    pub fn phase(&self) -> Phase {
+        self.inner.lock().unwrap().phase.clone()
+    }
+    pub fn park_info(&self) -> ParkInfo {
+        self.inner.lock().unwrap().park.clone()
+    }
+
+    /// Harness side: wait until the daemon is parked (or exited).
+    pub fn wait_parked(&self, real_timeout: Duration) -> Result<Phase, Phase> {
+        let g = self.inner.lock().unwrap();
+        let (g, res) = self
+            .cv
+            .wait_timeout_while(g, real_timeout, |i| {
+                !matches!(i.phase, Phase::Parked | Phase::Exited { .. })
+            })
+            .unwrap();
+        if res.timed_out() && !matches!(g.phase, Phase::Parked | Phase::Exited { .. }) {
+            Err(g.phase.clone())
+        } else {
+            Ok(g.phase.clone())
+        }
+    }
+
+    /// Harness side: release a parked daemon. Returns false if it was not parked.
+    pub fn release(&self) -> bool {
+        let mut g = self.inner.lock().unwrap();
+        if g.phase != Phase::Parked {
+            return false;
+        }
+        g.phase = Phase::Running;
+        self.cv.notify_all();
+        true
+    }
+
+    /// Harness side: release the daemon for one loop iteration and wait for it to park again.
+    pub fn step(&self, real_timeout: Duration) -> Result<(Phase, ParkInfo), Phase> {
+        if !self.release() {
+            return Err(self.phase());
+        }
+        let ph = self.wait_parked(real_timeout)?;
+        Ok((ph, self.park_info()))
+    }
+
+    /// Harness side: ask a daemon parked at the loop top for a canonical dump of its state.
+    /// The daemon computes it and parks again without running an iteration.
+    pub fn dump(&self, real_timeout: Duration) -> Option<String> {
+        {
+            let mut g = self.inner.lock().unwrap();
+            if g.phase != Phase::Parked || g.park.point.is_some() {
+                return None;
+            }
+            g.dump_req = true;
+            g.dump = None;
+            g.phase = Phase::Running;
+            self.cv.notify_all();
+        }
+        self.wait_parked(real_timeout).ok()?;
+        self.inner.lock().unwrap().dump.take()
+    }
+
+    // ---- daemon side ----
+
+    /// Parks at the loop top. Returns `Some(())` when released for an iteration; while a dump is
+    /// requested, calls `dump` and parks again.
+    pub(crate) fn gate(
+        &self,
+        timeout: Option<Duration>,
+        next_ip_check: u64,
+        dump: &dyn Fn(u64) -> String,
+    ) {
+        let mut g = self.inner.lock().unwrap();
+        g.park.iteration += 1;
+        loop {
+            g.park.parked_at = g.now;
+            g.park.timeout_ms = timeout.map(|d| d.as_millis() as u64);
+            g.park.next_ip_check = next_ip_check;
+            g.park.point = None;
+            g.phase = Phase::Parked;
+            self.cv.notify_all();
+            g = self.cv.wait_while(g, |i| i.phase == Phase::Parked).unwrap();
+            if g.dump_req {
+                g.dump_req = false;
+                let now = g.now;
+                drop(g);
+                let s = dump(now);
+                g = self.inner.lock().unwrap();
+                g.dump = Some(s);
+                continue;
+            }
+            return;
+        }
+    }
+
+    fn park_at_point(&self, name: &'static str) {
+        let mut g = self.inner.lock().unwrap();
+        if !g.exit_points {
+            return;
+        }
+        g.park.parked_at = g.now;
+        g.park.timeout_ms = None;
+        g.park.point = Some(name);
+        g.phase = Phase::Parked;
+        self.cv.notify_all();
+        let mut g = self.cv.wait_while(g, |i| i.phase == Phase::Parked).unwrap();
+        g.dump_req = false;
+    }
+
+    pub(crate) fn exited(&self, panicked: bool) {
+        let mut g = self.inner.lock().unwrap();
+        g.phase = Phase::Exited { panicked };
+        self.cv.notify_all();
+    }
+    pub(crate) fn pop_ingress(&self, v4: bool) -> Option<InPkt> {
+        let mut g = self.inner.lock().unwrap();
+        let pos = g.ingress.iter().position(|p| p.src.is_ipv4() == v4)?;
+        g.ingress.remove(pos)
+    }
+    pub(crate) fn log_egress(&self, mut p: OutPkt) {
+        let mut g = self.inner.lock().unwrap();
+        p.t = g.now;
+        g.egress.push(p);
+    }
+    pub(crate) fn intfs(&self) -> Vec<SimIntf> {
+        self.inner.lock().unwrap().intfs.clone()
+    }
+    pub(crate) fn rand(&self, r: std::ops::Range<u64>) -> u64 {
+        let mut g = self.inner.lock().unwrap();
+        g.rng_draws += 1;
+        let v = g.rng.pop_front().unwrap_or(g.rng_default);
+        r.start + v % (r.end - r.start)
+    }
+}
+
+/// Marks the controller as exited when the daemon thread ends, normally or by panic.
+pub(crate) struct ExitGuard(pub Arc<SimCtl>);
+impl Drop for ExitGuard {
+    fn drop(&mut self) {
+        self.0.exited(std::thread::panicking());
+    }
+}
